@@ -2,7 +2,7 @@ from vp.core import Query
 from vp.skel import KIT_RULES
 
 LEVEL = "model_checking"
-UNITS = ["src/sp/transport/tcp/tcp.c", "src/sp/transport/socket/sockfd.c", "src/sp/transport/ipc/ipc.c", "src/core/aio.c (nni_aio_iov_advance/count/set_iov)", "src/supplemental/websocket/websocket.c (ws_frame_prep_tx, ws_mask_frame, ws_read_finish)", "src/core/message.c (nni_chunk_insert: inproc header pull-up)"]
+UNITS = ["src/sp/transport/tcp/tcp.c", "src/sp/transport/socket/sockfd.c", "src/sp/transport/ipc/ipc.c", "src/core/aio.c (nni_aio_iov_advance/count/set_iov)", "src/supplemental/websocket/websocket.c (ws_frame_prep_tx, ws_mask_frame, ws_read_finish)", "src/core/message.c (nni_chunk_insert: inproc header pull-up)", "src/supplemental/http/http_conn.c (http_rd_buf, http_rd_cb, http_wr_cb: the byte stream under websocket frames)"]
 RULE = "Inductive steps over the framing invariant: one query per (transport, step, concrete header/body size); transfer size n, all length values, RECVMAXSZ, payload and handshake bytes symbolic."
 BOUNDS = "protocol header 0..64 bytes (concrete 0,4,8,64), body 0..3 bytes on transmit / 1..3 on receive, one partial transfer of ANY size followed by completion"
 OUTSIDE = "kernel/epoll behaviour, TLS, websocket frame header decoding (C16), inproc hand-off other than the header insert; the induction from one step to all segmentations is argued in DESIGN.md"
@@ -45,6 +45,11 @@ def queries(tier):
     from props import C16
     for q in C16.queries(tier):
         if q.name.startswith(("ws-preptx", "ws-reassemble")):
+            qs.append(q)
+        # websocket frames are read and written through the buffered HTTP connection (the bytes that arrive in the
+        # same segment as the end of the upgrade reply are the beginning of the first frame)
+        if q.name.startswith(("httpconn-res-", "httpconn-write-full")) and (q.name.endswith("iov2") or "-segs" in q.name and q.name.count("_") <= 2):
+            q.group = "~" + q.group
             qs.append(q)
     # inproc delivers raw messages by inserting the protocol header in front of the body (nni_msg_insert)
     from props import C17
